@@ -395,6 +395,9 @@ def grid_wiring(chk, C):
         # data and gradient table, deterministic in the global position; dims order of 'v_parallel' is (r, z, theta, v)
         full = np.random.RandomState(seed).uniform(-1, 1, size=(npts[0], npts[2], npts[1], npts[3]))
         table = np.random.RandomState(seed + 1).uniform(-2, 2, size=(npts[0], npts[2], npts[1]))
+        # some (r, z, theta) lines are identically zero (empty phase space): with the equilibrium edge the nodes whose foot leaves the
+        # velocity domain still receive f_eq(r, foot)
+        full[np.random.RandomState(seed + 2).uniform(size=full.shape[:3]) < 0.25] = 0.0
 
         def body():
             grid, constants, _ = setup(forced)
